@@ -185,7 +185,7 @@ where
         for sender in self.tracker.sessions.values_mut() {
             // best effort to send the command to each session this isn't critical so we wouldn't
             // want to slow the server down by awaiting it
-            let _ = sender.send(command).await;
+            let _ = sender.try_send(command);
         }
     }
 
